@@ -46,6 +46,11 @@ def check_required(ctx, regs_by_sel, own, m):
     if err != 'ValueError':
       fails.append(('vararg-marker-accepted', 'REQUIRED passed as *args element: outcome %r' % (err,)))
     return fails
+  if err == 'ValueError' and not any(c01.has_ref(v) for v in bound.values()):
+    fails.append(('vararg-marker-misjudged', 'call %s args=%r kwargs=%r: no element of *args is the marker (a value whose __eq__ '
+                  'answers True to everything is not the marker), yet the call was refused with ValueError' %
+                  (ctx['sel'], args, ctx['kwargs'])))
+    return fails
   pos_marked = [names[i] for i in range(min(len(args), len(names))) if args[i] == ['req']]
   pos_supplied = [names[i] for i in range(min(len(args), len(names))) if args[i] != ['req']]
   kw_marked = [k for k, v in ctx['kwargs'] if v == ['req']]
